@@ -355,7 +355,10 @@ SIBLING_KINDS = ["domain-x", "domain-y", "source-scale", "bg", "meas", "precisio
                  # round 4: the same array OBJECTS refilled in place by the caller between two calls; a request that
                  # reaches the same padded extent with a smaller interior; integer-typed arrays; long level lists with
                  # repeats; the tower at the origin cell; the same request under several numerical threads
-                 "source-inplace", "profiles-inplace", "interior-shrink", "int-dtype", "levels-many", "meas-origin", "threads"]
+                 "source-inplace", "profiles-inplace", "interior-shrink", "int-dtype", "levels-many", "meas-origin", "threads",
+                 # fewer retained modes on the same padded geometry, right after the full-spectrum call (a work array that is
+                 # only rewritten in the retained block keeps the earlier call's high wavenumbers)
+                 "modes-fewer"]
 ALIAS_KINDS = {"source-inplace": ["q0"], "profiles-inplace": ["profiles"]}
 
 
@@ -478,6 +481,10 @@ def sibling(rng, case, kind):
             c["halo"] = float(1.3 * case["domain"][0] / nx)
     elif kind == "threads":
         c["_threads"] = 4
+    elif kind == "modes-fewer":
+        if tuple(case["modes"]) == (2, 2):
+            raise ValueError("already the smallest mode request")
+        c["modes"] = (2, 2)
     return tame(c, bound=1e9)  # keep the column (same z): only recompute the growth figure
 
 
@@ -491,6 +498,13 @@ def run_pair(S, parent, sib):
     if not alias:
         return rp, run_impl(S, sib)
     sobjs = build_args(sib)
+    # the caller re-uses ALL its buffers: arguments whose values are unchanged are the very same objects as in the first call
+    for name in ("q0", "z"):
+        if name not in alias and isinstance(pobjs[name], np.ndarray) and isinstance(sobjs[name], np.ndarray) \
+                and pobjs[name].dtype == sobjs[name].dtype and np.array_equal(pobjs[name], sobjs[name]):
+            sobjs[name] = pobjs[name]
+    if "profiles" not in alias and all(a.dtype == b.dtype and np.array_equal(a, b) for a, b in zip(pobjs["profiles"], sobjs["profiles"])):
+        sobjs["profiles"] = pobjs["profiles"]
     saved = {}
     for name in alias:
         if name == "profiles":
